@@ -97,6 +97,13 @@ def dispatch(t):
                            witver=int(witver), network=net).address or '-'
         except Exception:
             return 'ERR'
+    if k == 'stdaddr':
+        # same call as 'address' with data only; the model side answers from the FROZEN specification table
+        net, st, enc, data = t[1:]
+        try:
+            return Address(data=unhx(data), script_type=nn(st), encoding=nn(enc), network=net).address or '-'
+        except Exception:
+            return 'ERR'
     if k == 'modsqrt':
         try:
             return str(mod_sqrt(int(t[1])))
